@@ -27,6 +27,8 @@ def run(ck):
         traces.append(dbgen.gen_mailbox_trace(ck.rng, length=25))
     if not ok:
         return
+    for _ in range(60 if ck.tier == "quick" else 3000):
+        traces.append(dbgen.gen_launch_evolve_trace(ck.rng))
     ncorp = len(dbprops.load_corpus("C09"))
     traces = traces[:ncorp] + [dbgen.with_lag(ck.rng, t, 0.4) for t in traces[ncorp:]]    # a follower lagging across launch / clearing / deadline
     dbprops.run_db_property(ck, eng, traces, [dbprops.mon_c09], with_replicas=True, nontrivial=nontrivial)
